@@ -338,14 +338,15 @@ def tupleFile : Spec.HavokTag.TagFile :=
      .absent, .absent, .absent, .absent, .ints 0 [1, 2]]]
 
 /-- The finding on a concrete input: the file is well formed, it describes two bones, it instantiates
-a TUPLE member - and the reader (model of the code) panics instead of returning the bones.  The real
-code panics on the same bytes (`corpus/C16/havok.case`, last case: `unimplemented 34`). -/
+a TUPLE member - and the reader (model of the code) returns `None` instead of the bones (a panic
+`unimplemented 34` before the fix `C18-74`).  The real code does the same on the same bytes
+(`corpus/C16/havok.case`, last case). -/
 theorem c16_skeleton_unimplemented_witness :
     Spec.HavokTag.wf tupleFile = true ∧ Spec.HavokTag.usesUnimplemented [] tupleFile = true ∧
     (Spec.HavokTag.bonesOf tupleFile).map (·.map (·.name)) =
       some [[110, 95, 114, 111, 111, 116], [110, 95, 104, 97, 114, 97]] ∧
     Sklb.fromExisting (Spec.Sklb.encode ⟨Spec.Sklb.vOld, 0, 0, 101, 0, 0, 0, []⟩
-      (Spec.HavokTag.encode ⟨0xFFFF, 1⟩ tupleFile)) = .panic := by
+      (Spec.HavokTag.encode ⟨0xFFFF, 1⟩ tupleFile)) = .none := by
   decide +kernel
 
 /-! ### recorded finding `havok-array-length-guard` -/
@@ -370,7 +371,7 @@ def datalessFile : Spec.HavokTag.TagFile :=
 /-- The finding on a concrete input: a well-formed file that uses implemented member kinds only and
 describes two bones; its last array has 100 elements but only two bytes follow its element count
 (the existence bits and the end tag), and the reader's length guard (`array_len > remaining input`,
-added against unbounded allocation) panics instead of returning the bones. -/
+added against unbounded allocation) returns `None` instead of the bones. -/
 theorem c16_skeleton_length_guard_witness :
     Spec.HavokTag.wf datalessFile = true ∧ Spec.HavokTag.usesUnimplemented [] datalessFile = false ∧
     Spec.HavokTag.hasDatalessStructArray datalessFile = true ∧
@@ -380,7 +381,7 @@ theorem c16_skeleton_length_guard_witness :
     (Spec.HavokTag.bonesOf datalessFile).map (·.map (·.name)) =
       some [[110, 95, 114, 111, 111, 116], [110, 95, 104, 97, 114, 97]] ∧
     Sklb.fromExisting (Spec.Sklb.encode ⟨Spec.Sklb.vOld, 0, 0, 101, 0, 0, 0, []⟩
-      (Spec.HavokTag.encode ⟨0xFFFF, 1⟩ datalessFile)) = .panic := by
+      (Spec.HavokTag.encode ⟨0xFFFF, 1⟩ datalessFile)) = .none := by
   decide +kernel
 
 /-! ### recorded finding `havok-int-beyond-i32` -/
@@ -399,8 +400,9 @@ def wideFile : Spec.HavokTag.TagFile :=
      .absent, .absent, .absent, .absent]]
 
 /-- The finding on a concrete input: a well-formed file that describes two bones and stores one INT
-value outside `i32`; `read_packed_int` keeps a `u32` and shifts by 34 on the sixth byte (overflow
-panic in the profile the tests use; a wrapped shift and a garbage value otherwise). -/
+value outside `i32`; `read_packed_int` keeps a `u32` and would shift by 34 on the sixth byte: it
+returns `None` (since the fix `C18-71`; before it an overflow panic in the profile the tests use, a
+wrapped shift and a garbage value otherwise). -/
 theorem c16_skeleton_wide_int_witness :
     Spec.HavokTag.wf wideFile = true ∧ Spec.HavokTag.usesUnimplemented [] wideFile = false ∧
     Spec.HavokTag.usesWideInt wideFile = true ∧
@@ -408,7 +410,7 @@ theorem c16_skeleton_wide_int_witness :
       some [[110, 95, 114, 111, 111, 116], [110, 95, 104, 97, 114, 97]] ∧
     Spec.HavokTag.encodePackedInt (2 ^ 40) = [0x80, 0x80, 0x80, 0x80, 0x80, 0x40] ∧
     Sklb.fromExisting (Spec.Sklb.encode ⟨Spec.Sklb.vOld, 0, 0, 101, 0, 0, 0, []⟩
-      (Spec.HavokTag.encode ⟨0xFFFF, 1⟩ wideFile)) = .panic := by
+      (Spec.HavokTag.encode ⟨0xFFFF, 1⟩ wideFile)) = .none := by
   decide +kernel
 
 end Physis.C16
